@@ -858,9 +858,20 @@ impl<H: DnsHandle> DnssecDnsHandle<H> {
                     return None;
                 }
 
-                // TODO: Should this sig.signer_name should be confirmed to be in the same zone as
-                // the rrsigs and rrset?
-                //
+                // "The RRSIG RR's Signer's Name field MUST be the name of the zone that contains
+                // the RRset" (RFC 4035 section 5.3.1), so it has to be the owner name of the RRset
+                // or an ancestor of it. Without this, the keys of any other zone (securely
+                // delegated or not) would be accepted for this RRset.
+                if !rrsig.data().input().signer_name.zone_of(&key.name) {
+                    warn!(
+                        rrset_name = ?key.name,
+                        rrset_type = ?key.record_type,
+                        signer_name = %rrsig.data().input().signer_name,
+                        "RRSIG signer name is not the zone of the rrset; skipping"
+                    );
+                    return None;
+                }
+
                 // Break verification cycle
                 if query.name == original_query.name
                     && query.query_type == original_query.query_type
